@@ -134,12 +134,22 @@ def rule_b_finish(chk, prog):
     chk.analysed(f)
     eff = Effects(prog)
     mwo = eff.may_write_output()
-    sw = calls_to(f, "sqfs_super_write")
-    if len(sw) != 1:
-        chk.violation("K11-final", "single-commit", sw[1] if len(sw) > 1 else f,
-                      "sqfs_writer_finish must commit the superblock exactly once, found %d calls" % len(sw))
+    commits = eff.closure("commit", lambda i: norm_callee(i.callee) == "sqfs_super_write")
+    sw = [c for c in f.calls() if norm_callee(c.callee) == "sqfs_super_write" or
+          (c.callee and prog.fn(c.callee, f.unit) in commits and prog.fn(c.callee, f.unit).internal)]
+    if len(sw) == 0:
+        chk.violation("K11-final", "single-commit", f, "sqfs_writer_finish never commits the superblock")
         return
-    sw = sw[0]
+    if len(sw) > 1:
+        # several commit sites: everything between the first and the last one is written after a commit
+        first = [c for c in sw if all(c is d or f.inst_dominates(c, d) or not f.reaches(d.bb, c.bb) for d in sw)]
+        sw_first = first[0] if first else sw[0]
+        chk.violation("K11-final", "single-commit", sw[1] if sw[1] is not sw_first else sw[0],
+                      "sqfs_writer_finish commits the superblock at %d sites: the image becomes readable at the first "
+                      "one although tables are still written before the last" % len(sw))
+        sw = sw_first
+    else:
+        sw = sw[0]
     succ = success_points(f)
     if all(f.dominates(sw.bb, b) for b in succ) and succ:
         chk.ok("K11-final", "commit-dominates-success", sw, "every success return passes the final sqfs_super_write")
@@ -187,6 +197,16 @@ def rule_b_finish(chk, prog):
     return n
 
 
+def _only_called_from(prog, g, allowed, depth=0):
+    """g is a static helper whose every caller is (a static helper of) one of the allowed functions"""
+    if not g.internal or depth > 3:
+        return False
+    cs = prog.callers_of(g)
+    if not cs:
+        return False
+    return all(c.fn.name in allowed or _only_called_from(prog, c.fn, allowed, depth + 1) for c in cs)
+
+
 def rule_c_who_commits(chk, prog, tool):
     allowed = {"sqfs_writer_init", "sqfs_writer_finish"}
     n = 0
@@ -194,8 +214,9 @@ def rule_c_who_commits(chk, prog, tool):
         for c in f.calls():
             if norm_callee(c.callee) == "sqfs_super_write":
                 n += 1
-                if f.name in allowed:
-                    chk.ok("K2-commit", "%s:%s" % (tool, f.name), c, "superblock written by the writer's init/finish")
+                if f.name in allowed or _only_called_from(prog, f, allowed):
+                    chk.ok("K2-commit", "%s:%s" % (tool, f.name), c, "superblock written by the writer's init/finish%s" % (
+                        "" if f.name in allowed else " (static helper of it)"))
                 else:
                     chk.violation("K2-commit", "%s:%s" % (tool, f.name), c,
                                   "sqfs_super_write called outside sqfs_writer_init/sqfs_writer_finish in the %s closure" % tool)
@@ -290,6 +311,87 @@ def rule_e_finish_last(chk, prog, tool):
         chk.broke("no call to sqfs_writer_finish in the %s closure" % tool)
 
 
+def _wt_scan(prog, f, bidx, depth=0):
+    """(bad, write_sites) for function f whose parameter bidx is the caller's data"""
+    buf = f.params[bidx]
+
+    def derived(v, _seen=None):
+        _seen = _seen or set()
+        v = strip_casts(v)
+        if id(v) in _seen:
+            return False
+        _seen.add(id(v))
+        if v is buf:
+            return True
+        if v.is_inst and v.op == "getelementptr":
+            return derived(v.ops[0], _seen)
+        if v.is_inst and v.op in ("phi", "select"):
+            return any(derived(o, _seen) for o in (v.ops[1:] if v.op == "select" else v.ops))
+        return False
+    bad = None
+    writes = []
+    for i in f.insts():
+        if i.op != "call":
+            continue
+        name = norm_callee(i.callee)
+        if name in ("memcpy", "memmove"):
+            if derived(i.ops[1]):
+                bad = (i, "copies the caller's data into memory of its own instead of writing it")
+        elif name in ("pwrite", "pwrite64", "write", "WriteFile"):
+            writes.append(i)
+            if not derived(i.ops[1]):
+                bad = (i, "writes bytes that are not the caller's buffer (staged data)")
+        elif name and any(derived(a) for a in i.ops if not a.is_const):
+            g = prog.fn(name, f.unit)
+            if g is not None and not g.decl and depth < 3:
+                k = [ai for ai, a in enumerate(i.ops) if not a.is_const and derived(a)][0]
+                b2, w2 = _wt_scan(prog, g.build(), k, depth + 1)
+                if b2 is not None:
+                    bad = b2
+                if w2:
+                    writes.append(i)      # the helper is the write loop
+    return bad, writes
+
+
+def rule_writethrough(chk, prog):
+    """C14-f: the file layer is write-through.  The ordering proved at the sqfs_file_t interface only carries over
+    to the operating system if every write_at implementation hands the caller's bytes to a write system call
+    before it returns and never parks them in memory of its own (helpers are followed)."""
+    impls = prog.slot_impls(("struct.sqfs_file_t", "write_at"))
+    if not impls:
+        chk.broke("no implementation of sqfs_file_t.write_at found")
+    for f in impls:
+        f.build()
+        chk.analysed(f)
+        bad, sys_writes = _wt_scan(prog, f, 2)
+        inst = "%s:write-through" % f.name
+        succ = success_points(f)
+        wblocks = {w.bb for w in sys_writes}
+        skipped = None
+        if sys_writes:
+            seen, stack = set(), [f.blocks[0]]
+            while stack:
+                b = stack.pop()
+                if b in seen or b in wblocks:
+                    continue
+                seen.add(b)
+                if b in succ:
+                    # reaching success without a write is fine only under a test of the size parameter (size == 0)
+                    g_ok = False
+                    for cond, outcome, br in f.guards_at(b):
+                        if any(x is f.params[3] for x in backward_slice(cond)):
+                            g_ok = True
+                    if not g_ok:
+                        skipped = b.term
+                stack.extend(b.succs)
+        if bad is None and sys_writes and skipped is None:
+            chk.ok("K2-writethrough", inst, f, "the caller's buffer goes straight to the write system call; nothing is staged")
+        else:
+            site, why = bad if bad else (skipped or f, "can return success without having issued a write system call")
+            chk.violation("K2-writethrough", inst, site, fn=f.name, detail="%s %s: writes issued in program order (data, tables, "
+                          "then the final superblock) can reach the file in a different order" % (f.name, why))
+
+
 def run(chk):
     chk.explanation = (
         "Effect-ordering rules (K11/K12/K2/K1) on the image writer, decided on LLVM IR with a may-write-output "
@@ -304,6 +406,7 @@ def run(chk):
     lib = load_program("libsquashfs.la")
     rule_a_super_init(chk, lib)
     rule_d_readers_reject(chk, lib)
+    rule_writethrough(chk, lib)
     for tool in ("gensquashfs", "tar2sqfs"):
         prog = load_program(tool)
         if tool == "gensquashfs":
@@ -317,6 +420,7 @@ def run(chk):
     chk.floor("K2-commit", 6)
     chk.floor("K1-reject", 2)
     chk.floor("K11-last", 2)
+    chk.floor("K2-writethrough", 1)
     controls(chk)
 
 
